@@ -486,14 +486,12 @@ def use_after_clobber(ctx, rule="RW"):
         for prm, (how, _line) in w.items():
             if not how.startswith("subscript store") and not how.startswith("out="):
                 clobbers.setdefault(q, {})[prm] = how
-    if not clobbers:
-        return
     for qn in scope(ctx):
         fa = ctx.an.fa(qn)
         if not fa.ok:
             continue
         bad = None
-        for fx in [fa] + list(fa.nested.values()):
+        for fx in ([fa] + list(fa.nested.values())) if clobbers else []:
             for p in fx.paths:
                 dirty = []          # (term, callee, how)
                 for e in p.events:
@@ -818,3 +816,39 @@ def chunked_loops(ctx, rule="RC"):
                     ast.unparse(fd), bsrc, bsrc, ast.unparse(fd.left), bsrc, ast.unparse(fd.left), bsrc), loop.lineno)
         ctx.check(rule, qn + "|blocked-loops-cover-the-remainder", False if bad else (None if und else True), "no blocked loop drops a remainder", fn=qn, nontrivial=False,
                   bad=bad[0] if bad else "", undecided=und[0] if und else "", line=(bad or und or (None, None))[1])
+
+
+def both_neither(ctx, qn, a, b, extra_raise=lambda p: True):
+    """(both, neither): does function qn reject `both a and b given` / `neither given`?  True when a raising path decides exactly that; False
+    only on positive evidence - a NORMAL path on which both (neither) are decided given (missing), or on which one is decided and the other is
+    never looked at, or when no decision of the function looks at either parameter; None when the guards are written in a form the recorded
+    decisions do not resolve (flags collected in a tuple, a count of the given arguments, ...)."""
+    from ..paths import lookup
+    paths = ctx.paths(qn)
+
+    def state(p, nm):
+        return lookup(p.decided, ("cmp", "is", ("param", nm), NONE))
+
+    def mentions(p, nm):
+        return any(("param", nm) in Q.leaves(c) for c, _v in p.conds)
+    both = neither = None
+    for p in paths:
+        if p.exit == "raise" and extra_raise(p):
+            na, nb = state(p, a), state(p, b)
+            if na is False and nb is False:
+                both = True
+            if na is True and nb is True:
+                neither = True
+    for p in paths:
+        if not p.normal:
+            continue
+        na, nb = state(p, a), state(p, b)
+        for y, nx, ny in ((b, na, nb), (a, nb, na)):
+            if both is None and nx is False and (ny is False or not mentions(p, y)):
+                both = False
+            if neither is None and nx is True and (ny is True or not mentions(p, y)):
+                neither = False
+    if not any(mentions(p, a) or mentions(p, b) for p in paths):
+        both = False if both is None else both
+        neither = False if neither is None else neither
+    return both, neither
